@@ -231,7 +231,13 @@ impl<
                 self.seek_from_start(offset.try_into().map_err(|_| Error::InvalidOffset)?)?
             }
             SeekFrom::End(offset) => {
-                self.seek_from_end((-offset).try_into().map_err(|_| Error::InvalidOffset)?)?
+                self.seek_from_end(
+                    offset
+                        .checked_neg()
+                        .ok_or(Error::InvalidOffset)?
+                        .try_into()
+                        .map_err(|_| Error::InvalidOffset)?,
+                )?
             }
             SeekFrom::Current(offset) => {
                 self.seek_from_current(offset.try_into().map_err(|_| Error::InvalidOffset)?)?
